@@ -137,7 +137,10 @@ let answer (d : dump) (tree : obj option) (q : Stdlib.String.t) (r : Stdlib.Stri
            let nn = n_of_int (int_of_string n) and u = z_of_int (int_of_string until) and fl = n_of_int (int_of_string flags) in
            let ((rc, e), res) = hwloc_distrib roots nn u fl in
            let m = (match res with
-             | D_ok slots -> Stdlib.Printf.sprintf "%d %s%s" (int_of_z rc) (errname e)
+             | D_ok slots ->
+                 (* on EINVAL nothing is written: the harness still prints its n untouched slots *)
+                 let slots = if int_of_z rc < 0 then Stdlib.List.init (int_of_string n) (fun _ -> None) else slots in
+                 Stdlib.Printf.sprintf "%d %s%s" (int_of_z rc) (errname e)
                                (Stdlib.String.concat "" (Stdlib.List.map (fun s -> " " ^ text_of_bset s) slots))
              | D_assert -> "assert" | D_nullprev -> "nullprev") in
            let v = (match rw with
